@@ -109,6 +109,20 @@ def arith_script(rnd, allow_invalid=False):
         if not allow_invalid:
             n = min(n, 999)          # (a P2SH scriptSig pushes the arguments AND the redeem script: 1000 arguments are already one too many there)
         return b'\x6d' * ((n - 1) // 2) + (b'\x75' if (n - 1) % 2 else b''), [b'\x01'] * n
+    r2 = rnd.random()
+    if r2 < 0.07:
+        # the 201-operation limit inside the script that is run LAST (P2SH redeem script, witness script; a tapscript leaf has no such limit): n counted
+        # operations, at the limit and around it - operations counted in an earlier script section (HASH160 EQUAL of the P2SH output) do not add to it
+        n = rnd.choice([199, 200, 200, 201, 201, 202])
+        if not allow_invalid:
+            n = min(n, 201)
+        arith_script.hint = None
+        return b'\x61' * n + b'\x51', []
+    if r2 < 0.14 and allow_invalid:
+        # the argument of OP_IF: anything but the empty string and the single byte 01 is refused in tapscript (always) and in witness v0 scripts (under MINIMALIF)
+        arith_script.hint = 'MINIMALIF'
+        return b'\x63\x51\x67\x51\x68', [rnd.choice([b'\x02', b'\x01\x00', b'\x00', b'\x01', b'', b'\x81', b'\x01\x01'])]
+    arith_script.hint = None
     if rnd.random() < 0.12:
         # a keyless script of the pay-to-script-hash SHAPE whose argument is its hash preimage: as a witness script, tapscript leaf or P2SH redeem
         # script it is an ordinary script (the preimage is data, never run as a script)
@@ -127,7 +141,10 @@ def build(rnd, typ, ninputs=None, same_fund_decoy=False, allow_invalid=False):
     ms = num(2) + P(k[0].pub) + P(k[1].pub) + P(k[2].pub) + num(3) + b'\xae'
     meta = {}
     redeem = None
+    arith_script.hint = None
     ascript, aargs = arith_script(rnd, allow_invalid)
+    if arith_script.hint:
+        meta['flag_hint'] = arith_script.hint
     if typ == 'p2pk':
         spk = P(k[0].pub) + b'\xac'
     elif typ == 'p2pkh':
@@ -178,6 +195,10 @@ def build(rnd, typ, ninputs=None, same_fund_decoy=False, allow_invalid=False):
                     ascript, aargs = b'\x6d' * ((n_ - 1) // 2) + (b'\x75' if (n_ - 1) % 2 else b''), [b'\x01'] * n_
                 else:
                     ascript, aargs = b'\x75\x51', [bytes([7]) * (rnd.choice([520, 521]) if allow_invalid else 520)]
+            elif allow_invalid and rnd.random() < 0.3:
+                # BIP342 makes the minimal-IF rule part of tapscript itself: it holds with the MINIMALIF policy flag removed too
+                ascript, aargs = b'\x63\x51\x67\x51\x68', [rnd.choice([b'\x02', b'\x01\x00', b'\x00', b'\x01', b'', b'\x81', b'\x01\x01'])]
+                meta['flag_hint'] = 'MINIMALIF'
             leaf_script = ascript
             meta['leafkind'] = 'keyless'
         elif r < 0.85:
